@@ -44,7 +44,7 @@ NEAR = float(os.environ.get("VERIF_NEAR", "0.75"))
 
 import re as _re
 
-_NOTHING_FOUND = _re.compile(r"^\s*(\[\]|\{\}|\(\)|None|set\(\)|\[\] \[\]|\[\] \{\}|\{\} \[\])\s*$|\bnot found\b|^0 blocks|\bcalls \[\]|\bdispatched \[\]|: \[\]$|^products \[\]")
+_NOTHING_FOUND = _re.compile(r"^\s*(|\[\]|\{\}|\(\)|None|set\(\)|\[\] \[\]|\[\] \{\}|\{\} \[\])\s*$|\bnot found\b|^0 blocks|\bcalls \[\]|\bdispatched \[\]|: \[\]$|^products \[\]")
 
 
 class Ctx:
